@@ -688,6 +688,7 @@ func (server *SugarDB) evictKeysWithExpiredTTL(ctx context.Context) error {
 				continue
 			}
 			if !server.isInCluster() {
+				verifhook.Event("evict.ttl", database, k, entry.ExpireAt, now)
 				if err := server.deleteKey(ctx, k); err != nil {
 					server.storeLock.Unlock()
 					return fmt.Errorf("evictKeysWithExpiredTTL -> standalone delete: %+v", err)
